@@ -49,7 +49,7 @@ CE = ["0", "1", "-1", "2", "3", "0.5", "-0.25"]                       # exact al
 CE_SMALL = ["2", "0.5", "-1"]
 CE_TINY = ["2", "-0.25"]
 CR = ["2.99999", "3.00001", "0.99999", "1.00001", "-1.99999", "-2.00001", "0.00001", "-0.00001",
-      "0.12", "2.5", "0.005"]                                           # rounding alphabet
+      "0.12", "2.5", "0.005", "9.99999", "20.4"]   # the last two round to multiples of ten at 0 digits                                           # rounding alphabet
 CR_SECOND = ["2.99999", "0.12", "-0.00001", "1.00001"]
 KR = ["1", "0.12", "2.99999"]
 INEQ = ["<=", ">=", "<", ">"]
@@ -203,6 +203,8 @@ def _set_menus(sub):
             ["=", ["-", a, b], "0"],                       # not eliminable (lhs is not a sum)
             ["=", ["-", a, b], "1"],                       # a difference equal to a non-zero numeral ...
             ["=", ["-", a, b], c],                         # ... and to a fluent: a = c + b, never c - b
+            ["=", ["+", a, b], c],                         # a sum equal to a fluent: a = c - b
+            ["=", ["+", a, b], ["*", "3", c]],
         ]
         ineqs = [
             ["<=", a, "3"],
@@ -277,8 +279,11 @@ def _set_cases(tier):
             # members are added to a Python set by the library; the order of insertion is rotated
             rot = idx % len(conds)
             conds = conds[rot:] + conds[:rot]
+            fluent_rhs = any(not isinstance(eqs[e][2], str) for e in es)
+            division = any("'/'" in repr(ineqs[i]) for i in is_)
             yield {"kind": "set", "sub": sub, "conds": conds, "digits": digits,
-                   "tags": [sub, f"eq{len(es)}", f"ineq{len(is_)}"]}
+                   "tags": [sub, f"eq{len(es)}", f"ineq{len(is_)}"]
+                   + (["eq-fluent-rhs-with-division"] if fluent_rhs and division else [])}
             idx += 1
 
 
@@ -1185,10 +1190,16 @@ def _has(tag):
 
 
 # predicates for known_findings.jsonl matchers ({"kind": "predicate", "name": ..., "clause": ...})
-MATCHERS = {name: _has(name) for name in (
+def _substituted_denominator(case, fail):
+    """KF-C13-13: an equality whose right-hand side is a fluent is substituted into the denominator of a sibling inequality"""
+    return fail["clause"] == "output-undefined" and "eq-fluent-rhs-with-division" in case.get("tags", []) \
+        and "set" in fail.get("tags", [])
+
+
+MATCHERS = {"substituted_denominator": _substituted_denominator, **{name: _has(name) for name in (
     "rational-coefficient", "power-operator", "int-truncation", "zero-coefficient", "digits-ignored",
     "digits-type", "numeral-vs-numeral", "constant-truth-value", "no-fluent", "numeral-lhs", "none-operand",
-    "integer-subtraction-read-as-fluent", "compound-power-base")}
+    "integer-subtraction-read-as-fluent", "compound-power-base")}}
 
 
 if __name__ == "__main__":
